@@ -17,16 +17,6 @@ namespace C03
 
 /-! ### PAG pair -/
 
-/-- `MixedEdgeGraph.add_edge(u, v, t)` once the guard has passed (`t` names a layer or is 'all') -/
-def rawAddP (t : ET) (s : PBits) : PBits :=
-  match t with
-  | .directed => { s with directed_uv := true }
-  | .circle => { s with circle_uv := true }
-  | .bidirected => { s with bi := true }
-  | .undirected => { s with un := true }
-  | .all => { s with directed_uv := true, circle_uv := true, bi := true, un := true }
-  | .other => s
-
 /-- `PAG.add_edge(u, v, t)`: guard, then `MixedEdgeGraph.add_edge` (an unknown layer name passes the
     guard's elif chain and makes `_get_internal_graph` raise `ValueError` before anything is stored) -/
 def addP (t : ET) (s : PBits) : PBits × Bool :=
@@ -77,13 +67,6 @@ def isValidP (s : PBits) : Bool :=
 
 /-! ### CPDAG pair (layers: directed, undirected) -/
 
-def rawAddC (t : ET) (s : CBits) : CBits :=
-  match t with
-  | .directed => { s with directed_uv := true }
-  | .undirected => { s with un := true }
-  | .all => { s with directed_uv := true, un := true }
-  | _ => s
-
 /-- `CPDAG.add_edge`: 'bidirected' / 'circle' name no layer of a CPDAG -/
 def addC (t : ET) (s : CBits) : CBits × Bool :=
   if checkCpdag t s then (s, true)
@@ -128,14 +111,6 @@ structure Sem (σ : Type) where
 def semP : Sem PBits := ⟨addP, removeP, removeSilentP, orientP, isValidP, fun t => t ≠ .other⟩
 def semC : Sem CBits :=
   ⟨addC, removeC, removeSilentC, orientC, isValidC, fun t => t ≠ .other ∧ t ≠ .bidirected ∧ t ≠ .circle⟩
-
-inductive Op
-  | add (t : ET) (u v : Nat)
-  | addBulk (t : ET) (es : List (Nat × Nat))        -- add_edges_from
-  | remove (t : ET) (u v : Nat)
-  | removeBulk (t : ET) (es : List (Nat × Nat))     -- remove_edges_from
-  | orient (u v : Nat)
-deriving Repr
 
 variable {σ : Type} [PairState σ]
 
